@@ -352,89 +352,124 @@ class ExpectLoop(Contract):
                 ('maxread-positive', me.spawn.maxread >= 1)]
 
     def outcomes(self, v):
-        return [Ret(T.Int, 'hit'), Ret(T.Int, 'eof-listed'), Ret(T.Int, 'timeout-listed'),
-                Raises('EOF'), Raises('TIMEOUT'), Raises('OSError', 'error')]
+        return expect_outcomes()
 
     def exits(self, v):
         return ('EOF', 'TIMEOUT', 'OSError')
 
     def modifies(self, v, out):
         me = v.old.self
-        sp, se = me.spawn, me.searcher
-        k = io_kind(sp._before)
-        lab = out.label
-        m = [(sp, '_buffer', TIo(k)), (sp, '_before', TIo(k)), (sp, 'before', TStr(k))]
-        if lab == 'hit':
-            m += [(se, 'start', T.Int), (se, 'end', T.Int), (se, 'match', T.Any),
-                  (sp, 'after', TStr(k)), (sp, 'match', T.Any), (sp, 'match_index', T.Int)]
-        elif lab in ('eof-listed', 'EOF'):
-            m += [(sp, 'after', TCls('EOF'))]
-            m += [(sp, 'match', TCls('EOF')), (sp, 'match_index', T.Int)] if lab == 'eof-listed' else \
-                 [(sp, 'match', T.NoneT), (sp, 'match_index', T.NoneT)]
-        elif lab in ('timeout-listed', 'TIMEOUT'):
-            m += [(sp, 'after', TCls('TIMEOUT'))]
-            m += [(sp, 'match', TCls('TIMEOUT')), (sp, 'match_index', T.Int)] if lab == 'timeout-listed' else \
-                 [(sp, 'match', T.NoneT), (sp, 'match_index', T.NoneT)]
-        else:
-            m += [(sp, 'after', T.NoneT), (sp, 'match', T.NoneT), (sp, 'match_index', T.NoneT)]
-        return m
+        return expect_modifies(me.spawn, out.label, me.searcher)
 
     def effects(self, v):
-        # a caller sees: some text rx was received, some time dt passed
-        k = io_kind(v.old.self.spawn._before)
-        v.rx = v.draw(TStr(k), 'rx')
-        v.dt = v.draw(T.Real, 'dt')
-        v.g['R'] = cat(v.g['R'], v.rx)
-        v.g['clk'] = v.g['clk'] + v.dt
+        expect_effects(v, v.old.self.spawn)
 
     def ensures(self, v):
         me = v.old.self
-        old, new = me.spawn, v.new.self.spawn
         se = me.searcher
-        EOFc, TOc = ClassConst('EOF'), ClassConst('TIMEOUT')
-        if getattr(v, 'rx', None) is None:      # proof side: the function's own ghosts (R starts empty)
-            rx, dt = v.g['R'], v.g['clk'] - v.g0['clk']
+        return expect_outcome_post(v, me.spawn, v.new.self.spawn, v.old.timeout,
+                                   eof_index=se.eof_index, timeout_index=se.timeout_index,
+                                   new_searcher=v.new.self.searcher)
+
+
+def expect_outcome_post(v, old, new, T0, eof_index=None, timeout_index=None, new_searcher=None, plist=None):
+    """Postcondition shared by every expect-family entry point (C01 accounting, C04 outcome table, C05
+    deadline on the ghost clock).  old/new: the spawn before/after; T0: the effective timeout; the EOF /
+    TIMEOUT markers are described either by a searcher's indices or by the pattern list itself."""
+    EOFc, TOc = ClassConst('EOF'), ClassConst('TIMEOUT')
+    if getattr(v, 'rx', None) is None:      # proof side: the function's own ghosts (R starts empty)
+        rx, dt = v.g['R'], v.g['clk'] - v.g0['clk']
+    else:
+        rx, dt = v.rx, v.dt
+    total = cat(pend_of(old), rx)
+    out = [('inv', INV_buf(new))]
+    is_eof = eq(new.after, EOFc) is True
+    is_to = eq(new.after, TOc) is True
+
+    def listed(kind, r):
+        if plist is not None:
+            test = pat_is_eof if kind == 'eof' else pat_is_timeout
+            return And(0 <= r, r < plist.len, test(plist.get(r)))
+        idx = eof_index if kind == 'eof' else timeout_index
+        return And(idx >= 0, eq(r, idx))
+
+    def unlisted_clauses(kind, tag):
+        if plist is not None:
+            test = pat_is_eof if kind == 'eof' else pat_is_timeout
+            return [(tag, forall(0, plist.len, lambda j: Not(test(plist.get(j)))))]
+        idx = eof_index if kind == 'eof' else timeout_index
+        return [(tag, Not(idx >= 0))]
+
+    if v.raised is None and not is_eof and not is_to:
+        out += [('C01:hit.conserve', eq(cat(new.before, new.after, pend_of(new)), total)),
+                ('C01:hit.buffer-is-pending', eq(sbuf_of(new), pend_of(new))),
+                ('C02+C04:hit.match-index', And(eq(new.match_index, v.result), v.result >= 0))]
+        if new_searcher is not None:
+            out.append(('C02:hit.match-object', same(new.match, new_searcher.match)))
+    elif is_eof:
+        out += [('C01+C04:eof.before-is-all', eq(new.before, total)),
+                ('C01+C04:eof.pending-cleared', And(eq(pend_of(new), ''), eq(sbuf_of(new), '')))]
+        if v.raised is None:
+            out += [('C04:eof.listed', And(listed('eof', v.result), eq(new.match, EOFc), eq(new.match_index, v.result)))]
         else:
-            rx, dt = v.rx, v.dt
-        total = cat(pend_of(old), rx)
-        T0 = v.old.timeout
-        out = [('inv', INV_buf(new))]
-        is_eof = eq(new.after, EOFc) is True
-        is_to = eq(new.after, TOc) is True
-        if v.raised is None and not is_eof and not is_to:
-            # a text pattern matched
-            out += [('C01:hit.conserve', eq(cat(new.before, new.after, pend_of(new)), total)),
-                    ('C01:hit.buffer-is-pending', eq(sbuf_of(new), pend_of(new))),
-                    ('C02+C04:hit.match', And(same(new.match, v.new.self.searcher.match), eq(new.match_index, v.result),
-                                              v.result >= 0))]
-        elif is_eof:
-            out += [('C01+C04:eof.before-is-all', eq(new.before, total)),
-                    ('C01+C04:eof.pending-cleared', And(eq(pend_of(new), ''), eq(sbuf_of(new), ''))),
-                    ('C04:eof.listed-or-raised',
-                     And(se.eof_index >= 0, eq(v.result, se.eof_index), eq(new.match, EOFc), eq(new.match_index, se.eof_index))
-                     if v.raised is None else
-                     And(v.raised == 'EOF', Not(se.eof_index >= 0), is_none(new.match), is_none(new.match_index)))]
-        elif is_to:
-            out += [('C01+C04:timeout.before-is-all', eq(new.before, total)),
-                    ('C01:timeout.consumes-nothing', eq(pend_of(new), total)),
-                    ('C04:timeout.listed-or-raised',
-                     And(se.timeout_index >= 0, eq(v.result, se.timeout_index), eq(new.match, TOc),
-                         eq(new.match_index, se.timeout_index))
-                     if v.raised is None else
-                     And(v.raised == 'TIMEOUT', Not(se.timeout_index >= 0), is_none(new.match), is_none(new.match_index))),
-                    # C05: never TIMEOUT without a finite timeout, and never before it has elapsed
-                    ('C05:timeout.only-with-finite-timeout', T0 is not None),
-                    ('C05:timeout.not-early', True if T0 is None else dt >= T0)]
+            out += [('C04:eof.raises-EOF', And(v.raised == 'EOF', is_none(new.match), is_none(new.match_index)))]
+            out += unlisted_clauses('eof', 'C04:eof.raised-only-if-unlisted')
+    elif is_to:
+        out += [('C01+C04:timeout.before-is-all', eq(new.before, total)),
+                ('C01:timeout.consumes-nothing', eq(pend_of(new), total))]
+        if v.raised is None:
+            out += [('C04:timeout.listed', And(listed('timeout', v.result), eq(new.match, TOc), eq(new.match_index, v.result)))]
         else:
-            out += [('C01+C04:error.before-is-all', eq(new.before, total)),
-                    ('C01:error.consumes-nothing', eq(pend_of(new), total)),
-                    ('C04:error.reraised', And(v.raised is not None, is_none(new.after), is_none(new.match),
-                                               is_none(new.match_index)))]
-        if T0 is not None:
-            d = old.delayafterread
-            out.append(('C05:deadline.overall-bound', dt <= smax(T0, 0) + (0 if d is None else d)))
-        out.append(('C05:clock-forward', dt >= 0))
-        return out
+            out += [('C04:timeout.raises-TIMEOUT', And(v.raised == 'TIMEOUT', is_none(new.match), is_none(new.match_index)))]
+            out += unlisted_clauses('timeout', 'C04:timeout.raised-only-if-unlisted')
+        # C05: never TIMEOUT without a finite timeout, and never before it has elapsed
+        out += [('C05:timeout.only-with-finite-timeout', T0 is not None),
+                ('C05:timeout.not-early', True if T0 is None else dt >= T0)]
+    else:
+        out += [('C01+C04:error.before-is-all', eq(new.before, total)),
+                ('C01:error.consumes-nothing', eq(pend_of(new), total)),
+                ('C04:error.reraised', And(v.raised is not None, is_none(new.after), is_none(new.match),
+                                           is_none(new.match_index)))]
+    if T0 is not None:
+        d = old.delayafterread
+        out.append(('C05:deadline.overall-bound', dt <= smax(T0, 0) + (0 if d is None else d)))
+    out.append(('C05:clock-forward', dt >= 0))
+    return out
+
+
+def expect_outcomes():
+    return [Ret(T.Int, 'hit'), Ret(T.Int, 'eof-listed'), Ret(T.Int, 'timeout-listed'),
+            Raises('EOF'), Raises('TIMEOUT'), Raises('OSError', 'error')]
+
+
+def expect_modifies(sp, lab, se=None):
+    """Locations an expect-family call may change, per outcome."""
+    k = io_kind(sp._before)
+    m = [(sp, '_buffer', TIo(k)), (sp, '_before', TIo(k)), (sp, 'before', TStr(k))]
+    if lab == 'hit':
+        if se is not None:
+            m += [(se, 'start', T.Int), (se, 'end', T.Int), (se, 'match', T.Any)]
+        m += [(sp, 'after', TStr(k)), (sp, 'match', T.Any), (sp, 'match_index', T.Int)]
+    elif lab in ('eof-listed', 'EOF'):
+        m += [(sp, 'after', TCls('EOF'))]
+        m += [(sp, 'match', TCls('EOF')), (sp, 'match_index', T.Int)] if lab == 'eof-listed' else \
+             [(sp, 'match', T.NoneT), (sp, 'match_index', T.NoneT)]
+    elif lab in ('timeout-listed', 'TIMEOUT'):
+        m += [(sp, 'after', TCls('TIMEOUT'))]
+        m += [(sp, 'match', TCls('TIMEOUT')), (sp, 'match_index', T.Int)] if lab == 'timeout-listed' else \
+             [(sp, 'match', T.NoneT), (sp, 'match_index', T.NoneT)]
+    else:
+        m += [(sp, 'after', T.NoneT), (sp, 'match', T.NoneT), (sp, 'match_index', T.NoneT)]
+    return m
+
+
+def expect_effects(v, sp):
+    """What a caller sees of an expect-family call: some text rx was received, some time dt passed."""
+    k = io_kind(sp._before)
+    v.rx = v.draw(TStr(k), 'rx')
+    v.dt = v.draw(T.Real, 'dt')
+    v.g['R'] = cat(v.g['R'], v.rx)
+    v.g['clk'] = v.g['clk'] + v.dt
 
 
 # =============================================================================================
